@@ -117,6 +117,10 @@ func (w *worker) recordEval(c *recCase, raw []byte) {
 			return
 		}
 		before := snap(doc)
+		if P["C04"] && w.lastDoc != nil && snap(w.lastDoc) != w.lastSnap {
+			w.viol("C04", "earlier-document-modified-by-a-later-call", text, w.lastSnap, "the document of the previous retrieval reads "+snap(w.lastDoc)+" now (previous path: "+w.lastText+")", "doc", raw)
+			w.lastDoc = nil
+		}
 		log := &callLog{}
 		cfg := modelConfig(log, false)
 		o := observeParse(text, &cfg)
@@ -160,6 +164,12 @@ func (w *worker) recordEval(c *recCase, raw []byte) {
 		if after != before {
 			w.viol(primary(P, "C04", "C01"), "document-modified", text, before, "after the call: "+after, "doc", raw)
 			continue
+		}
+		if P["C04"] {
+			if w.lastDoc != nil && snap(w.lastDoc) != w.lastSnap {
+				w.viol("C04", "earlier-document-modified-by-a-later-call", text, w.lastSnap, "this retrieval changed the document of the PREVIOUS retrieval ("+w.lastText+") to "+snap(w.lastDoc), "doc", raw)
+			}
+			w.lastDoc, w.lastSnap, w.lastText = doc, after, text
 		}
 		if r.Err == nil {
 			w.distinct(fmt.Sprintf("ok|%d|%s", len(r.Vals), c.Src))
